@@ -9,7 +9,11 @@ import (
 	"io"
 	"math"
 	"math/rand"
+	"os"
+	"os/exec"
+	"path/filepath"
 	"sort"
+	"strconv"
 	"strings"
 
 	"github.com/foxglove/mcap/go/mcap"
@@ -608,6 +612,14 @@ func c10LimitEntries(it *WorkItem) []entry {
 		return lexOutcome(data, o)
 	}}, {"lexer/limits-novalidate", func(*WorkItem) string {
 		return lexOutcome(data, lexerOptionCombo(32|64|128))
+	}}, {"lexer/limits-emitchunks", func(*WorkItem) string {
+		// with EmitChunks the chunk record is read whole, so MaxRecordSize must bound it too
+		return lexOutcome(data, lexerOptionCombo(4|32|64|128))
+	}}, {"lexer/limits-emitchunks-skipmagic", func(*WorkItem) string {
+		if len(data) < 8 {
+			return "error"
+		}
+		return lexOutcome(data[8:], lexerOptionCombo(1|4|64))
 	}}}
 }
 
@@ -618,7 +630,7 @@ func c10LimitInputs(ctx *core.Ctx) []WorkItem {
 	hdr := append(append([]byte(nil), refmcap.Magic...), refmcap.Record(refmcap.OpHeader, (&refmcap.Header{}).Body())...)
 	add := func(kind string, d []byte) { items = append(items, WorkItem{ID: len(items), Kind: kind, Data: d}) }
 	for _, declared := range []uint64{c10Limit + 1, 8 << 20, 64 << 20, 1 << 30, 1<<31 - 2} {
-		for _, op := range []byte{refmcap.OpSchema, refmcap.OpMessage, refmcap.OpMetadata, refmcap.OpStatistics, 0x42} {
+		for _, op := range []byte{refmcap.OpSchema, refmcap.OpMessage, refmcap.OpMetadata, refmcap.OpStatistics, refmcap.OpChunk, refmcap.OpMessageIndex, refmcap.OpChunkIndex, refmcap.OpAttachment, 0x42} {
 			d := append([]byte(nil), hdr...)
 			d = append(d, op)
 			d = binary.LittleEndian.AppendUint64(d, declared)
@@ -718,5 +730,109 @@ func RunC10(ctx *core.Ctx, rep *core.Report) {
 			}
 		}
 	}
+	if ctx.Thorough() {
+		runFuzzStage(ctx, rep, 150000)
+	}
 	rep.Sample(map[string]any{"kinds": kinds, "sample_input_hex": core.Hex(items[len(items)/2].Data[:min(80, len(items[len(items)/2].Data))]), "sample_kind": items[len(items)/2].Kind})
+}
+
+// ---- coverage-guided exploration (thorough tier)
+
+// C10FuzzSeeds returns the seed corpus for go test -fuzz: valid base files and a few structured mutants.
+func C10FuzzSeeds() [][]byte {
+	ctx := &core.Ctx{Seed: core.EnvSeed()}
+	items, _ := c10Inputs(ctx, 300, 40, 60)
+	var out [][]byte
+	for _, it := range items {
+		if len(it.Data) <= 16<<10 {
+			out = append(out, it.Data)
+		}
+	}
+	return out
+}
+
+// C10FuzzOne runs the decode entry points on one input in-process; a panic propagates to the fuzzing engine.
+// Lexer runs use the configured limits so that legal-but-huge allocations do not slow the engine down.
+func C10FuzzOne(data []byte) {
+	it := &WorkItem{ID: int(crc32.ChecksumIEEE(data)), Data: data}
+	for _, m := range []int{2 | 8 | 32 | 64 | 128, 4 | 64, 1 | 16 | 32 | 64 | 128} {
+		lexOutcome(data, lexerOptionCombo(m))
+	}
+	for _, e := range parseAll(data) {
+		e.run(it)
+	}
+	if len(data) < 4096 {
+		infoOutcome(data)
+		iterOutcome(data, mcap.UsingIndex(false))
+		iterOutcome(data, mcap.InOrder(mcap.LogTimeOrder))
+		iterOutcome(data, mcap.UsingIndex(true), mcap.WithMetadataCallback(func(*mcap.Metadata) error { return nil }))
+	}
+}
+
+// runFuzzStage runs the coverage-guided explorer for a fixed number of executions and feeds its
+// crashers to the isolated worker.
+func runFuzzStage(ctx *core.Ctx, rep *core.Report, execs int) {
+	dir := filepath.Join(core.VerifDir, "harness")
+	crashDir := filepath.Join(dir, "fuzz", "testdata", "fuzz", "FuzzDecode")
+	_ = os.RemoveAll(filepath.Join(dir, "fuzz", "testdata"))
+	args := []string{"test", "-tags", "verif", "-run", "^$", "-fuzz", "FuzzDecode", "-fuzztime", fmt.Sprintf("%dx", execs), "-parallel", "8"}
+	if mf := os.Getenv("VERIF_MODFILE"); mf != "" {
+		args = append(args, "-modfile="+mf)
+	}
+	args = append(args, "./fuzz")
+	cmd := exec.Command("go", args...)
+	cmd.Dir = dir
+	cmd.Env = append(goEnv(), "CGO_ENABLED=1")
+	out, err := cmd.CombinedOutput()
+	text := string(out)
+	rep.Set("fuzz_stage_tail", tail(text, 600))
+	var done int
+	for _, line := range strings.Split(text, "\n") {
+		if i := strings.Index(line, "execs: "); i >= 0 {
+			var n int
+			fmt.Sscanf(line[i:], "execs: %d", &n)
+			if n > done {
+				done = n
+			}
+		}
+	}
+	rep.Count("fuzz_executions", int64(done))
+	files, _ := filepath.Glob(filepath.Join(crashDir, "*"))
+	if err != nil && len(files) == 0 {
+		rep.Inconclusive("coverage-guided stage failed without leaving a crasher: " + tail(text, 300))
+		return
+	}
+	var items []WorkItem
+	for i, f := range files {
+		b, rerr := os.ReadFile(f)
+		if rerr != nil {
+			continue
+		}
+		// corpus file format: "go test fuzz v1\n[]byte(\"...\")\n"
+		data := decodeFuzzCorpus(string(b))
+		items = append(items, WorkItem{ID: i, Kind: "fuzz-crasher", Data: data, Aux: data})
+	}
+	if len(items) > 0 {
+		rep.Count("fuzz_crashers", int64(len(items)))
+		before := rep.NumViolations()
+		judgeC10(ctx, rep, items, runIsolated(ctx, "c10", items, 1, 1, rep), "fuzz")
+		if rep.NumViolations() == before {
+			rep.Note("the fuzz engine reported %d crasher(s) that the isolated worker does not reproduce (engine resource limits?): %s", len(items), tail(text, 200))
+		}
+	}
+	_ = os.RemoveAll(filepath.Join(dir, "fuzz", "testdata"))
+}
+
+func decodeFuzzCorpus(s string) []byte {
+	lines := strings.Split(s, "\n")
+	for _, l := range lines {
+		l = strings.TrimSpace(l)
+		if strings.HasPrefix(l, "[]byte(") && strings.HasSuffix(l, ")") {
+			q := l[len("[]byte(") : len(l)-1]
+			if u, err := strconv.Unquote(q); err == nil {
+				return []byte(u)
+			}
+		}
+	}
+	return nil
 }
